@@ -8,7 +8,6 @@ import (
 	"fmt"
 	"math/big"
 	"math/rand"
-	"sort"
 	"strings"
 
 	amd "github.com/linuxboot/fiano/pkg/amd/manifest"
@@ -697,195 +696,6 @@ func sliceOf(img []byte, off, ln uint64) []byte {
 	return img[off : off+ln]
 }
 
-// fwRun executes GetKeys and ValidateRTM on a fresh copy of the image and returns the canonical
-// results plus the image as ValidateRTM left it.
-func fwRun(img []byte, level uint) (keys string, rtm string, after []byte) {
-	b := clone(img)
-	fw, err := amd.NewAMDFirmware(fwImage{b})
-	if err != nil {
-		return "nofw", "nofw", b
-	}
-	ks, err := psb.GetKeys(fw, level)
-	if err != nil {
-		keys = "err"
-	} else {
-		var ps []string
-		for _, t := range []string{"root", "db", "abl", "oem"} {
-			sub, err := ks.KeysetFromType(ktNames[t])
-			if err != nil {
-				continue
-			}
-			var ids []string
-			for _, id := range sub.AllKeyIDs() {
-				ids = append(ids, core.Hex(id[:]))
-			}
-			sort.Strings(ids)
-			for _, id := range ids {
-				ps = append(ps, t+":"+id)
-			}
-		}
-		o := "oem=err"
-		if k, err := psb.GetPSBSignBIOSKey(fw, level); err == nil {
-			tmp := psb.NewKeySet()
-			_ = tmp.AddKey(k, psb.OEMKey)
-			id := tmp.AllKeyIDs()[0]
-			o = "oem=" + core.Hex(id[:])
-		}
-		keys = "ok " + strings.Join(ps, ",") + " " + o
-	}
-	b2 := clone(img)
-	fw2, _ := amd.NewAMDFirmware(fwImage{b2})
-	res, err := psb.ValidateRTM(fw2, level)
-	switch {
-	case err != nil:
-		rtm = "fail"
-	case res.Error() != nil:
-		rtm = "invalid"
-	default:
-		rtm = "ok"
-	}
-	return keys, rtm, b2
-}
-
-func runFirmware(x *run, a map[string]string, thorough bool) {
-	img := core.UnHex(a["img"])
-	level := uint(atoi(a["level"]))
-	fw, err := amd.NewAMDFirmware(fwImage{clone(img)})
-	if err != nil {
-		panic("harness: synthetic image is not an AMD firmware: " + err.Error())
-	}
-	keys, rtm, after := fwRun(img, level)
-	x.out.Class = c16kind(a) + ":L" + a["level"] + ":keys=" + strings.SplitN(keys, " ", 2)[0] + ",rtm=" + rtm
-	if a["covered"] != "" {
-		// oracle: a firmware whose key chain and RTM volume are signed over exactly the documented
-		// ranges (and whose layout keeps ValidateRTM's in-place append harmless) validates
-		x.OSig("covered-range-exact", "covered-range-exact:firmware", "ok ok", strings.SplitN(keys, " ", 2)[0]+" "+rtm)
-	}
-
-	// the entries as fiano's directory parser (property C17) located them
-	rootO, rootL, ok1 := entryRange(fw, 1, false, 0x00)
-	dbO, dbL, ok2 := entryRange(fw, level, false, 0x50)
-	ablO, ablL, ok3 := entryRange(fw, level, false, 0x0A)
-	oemO, oemL, okOem := entryRange(fw, level, true, 0x05)
-	rtmO, rtmL, ok4 := entryRange(fw, level, true, 0x62)
-	sigO, sigL, ok5 := entryRange(fw, level, true, 0x07)
-	root, db, abl := sliceOf(img, rootO, rootL), sliceOf(img, dbO, dbL), sliceOf(img, ablO, ablL)
-	if !(ok1 && ok2 && ok3 && root != nil && db != nil && abl != nil) {
-		return // a directory-level failure: nothing for this model to say
-	}
-	var oem []byte
-	if okOem {
-		oem = sliceOf(img, oemO, oemL)
-		if oem == nil {
-			return
-		}
-	}
-	// tables: every verification of the chain, under every key that could be in the set
-	t := &tables{}
-	var cands []ksEntry
-	cands = append(cands, ksEntry{"root", root})
-	if len(db) > 0x100+80 {
-		body := db[0x100:]
-		if ss := binary.LittleEndian.Uint32(db[20:]); db[72] == 0 && uint64(ss)+0x100 <= uint64(len(db)) {
-			body = db[0x100 : 0x100+ss]
-		}
-		for p := 80; p+80 <= len(body); {
-			w := int(binary.LittleEndian.Uint32(body[p+32:]) / 8)
-			if w == 0 || p+80+w > len(body) {
-				break
-			}
-			tok := tokenHeader(body[p+16:p+32], body[p+16:p+32], binary.LittleEndian.Uint32(body[p+8:]), nil, uint32(8*w), uint32(8*w))
-			tok = append(tok, append(clone(body[p+12:p+16]), make([]byte, w-4)...)...)
-			tok = append(tok, body[p+80:p+80+w]...)
-			cands = append(cands, ksEntry{"db", tok})
-			p += 80 + w
-		}
-	}
-	if k, ok := readSpecKey(abl); ok {
-		cands = append(cands, ksEntry{"abl", abl[:k.n]})
-	}
-	if k, ok := readSpecKey(oem); ok && oem != nil {
-		cands = append(cands, ksEntry{"oem", oem[:k.n]})
-	}
-	pspTables(t, db, cands)
-	tokenTables(t, abl, cands)
-	if oem != nil {
-		tokenTables(t, oem, cands)
-	}
-	oemArg := "none"
-	if oem != nil {
-		oemArg = core.Hex(oem)
-	}
-	x.M("getkeys", fmt.Sprintf("getkeys %s %s %s %s", core.Hex(root), core.Hex(db), core.Hex(abl), oemArg)+t.String(), keys)
-
-	if !(ok4 && ok5) || oem == nil || !strings.Contains(keys, "oem=") || strings.Contains(keys, "oem=err") {
-		return
-	}
-	p := fw.PSPFirmware()
-	d1 := p.BIOSDirectoryLevel1Range
-	dL := d1
-	if level == 2 {
-		dL = p.BIOSDirectoryLevel2Range
-	}
-	okk, _ := readSpecKey(oem)
-	// tables for the RTM signature: the concatenation as the format says (volume ‖ [level-1
-	// directory] ‖ directory), and as ValidateRTM's in-place append makes it
-	t2 := &tables{}
-	vol, sig := sliceOf(img, rtmO, rtmL), sliceOf(img, sigO, sigL)
-	if vol != nil && sig != nil && okk != nil {
-		cat := clone(vol)
-		if level == 2 {
-			cat = append(cat, sliceOf(img, d1.Offset, d1.Length)...)
-		}
-		cat = append(cat, sliceOf(img, dL.Offset, dL.Length)...)
-		t2.blob(okk, reverseB(sig), cat)
-		// replay of the aliasing on a copy, to offer the primitive's verdict for that input too
-		b := clone(img)
-		acc := b[rtmO : rtmO+rtmL]
-		if level == 2 {
-			acc = append(acc, b[d1.Offset:d1.Offset+d1.Length]...)
-		}
-		acc = append(acc, b[dL.Offset:dL.Offset+dL.Length]...)
-		t2.blob(okk, reverseB(b[sigO:sigO+sigL]), acc)
-	}
-	exp := rtm
-	if rtm != "fail" {
-		exp = rtm + " " + fnv(after)
-	}
-	x.M("rtm", fmt.Sprintf("rtm %s %d %d,%d %d,%d %d,%d %d,%d %s", core.Hex(img), level, rtmO, rtmL, sigO, sigL,
-		d1.Offset, d1.Length, dL.Offset, dL.Length, core.Hex(oem[:okk.n]))+t2.String(), exp)
-
-	if rtm != "ok" || a["covered"] == "" {
-		return
-	}
-	// oracle: mutation sweep with the layout knowledge of the builder
-	cov, pad := core.UnHex(a["covered"]), core.UnHex(a["padding"])
-	r := rand.New(rand.NewSource(int64(atoi(a["mseed"]))))
-	bad, unc := "", ""
-	capB := 600
-	if thorough {
-		capB = 1500
-	}
-	for _, fl := range flips(r, len(img), false, 32, capB) {
-		isCov := cov[fl[0]/8]&(1<<uint(fl[0]%8)) != 0
-		isPad := pad[fl[0]/8]&(1<<uint(fl[0]%8)) != 0
-		if !isCov && !isPad {
-			continue
-		}
-		m := clone(img)
-		m[fl[0]] ^= 1 << uint(fl[1])
-		_, v, _ := fwRun(m, level)
-		if isCov && v == "ok" && bad == "" {
-			bad = fmt.Sprintf("covered byte %d bit %d", fl[0], fl[1])
-		}
-		if isPad && v != "ok" && unc == "" {
-			unc = fmt.Sprintf("padding byte %d bit %d", fl[0], fl[1])
-		}
-	}
-	mutationResult(x, "rtm", bad)
-	x.OSig("uncovered-no-influence", "uncovered-influence:rtm", "", unc)
-}
-
 // ---- generation ------------------------------------------------------------------------------
 
 type builder struct {
@@ -948,157 +758,6 @@ func dirTable(cookie uint32, entries [][]byte) []byte {
 		b = append(b, e...)
 	}
 	return b
-}
-
-// buildFirmware lays out a complete synthetic AMD firmware for `level`.
-// variant: "" valid | "volrange" | "adjacent" (signature right after the volume: ValidateRTM's append
-// overwrites it) | "noem" | "oemusage" | "badrtm" | "badabl" | "baddb" | "dupkey"
-func buildFirmware(r *rand.Rand, level int, rootK, dbK, oemK *rsa.PrivateKey, variant string) (img []byte, cov, pad []byte) {
-	rootID, dbID, ablID, oemID := keyID(0xA1), keyID(0xB2), keyID(0xC3), keyID(0xD4)
-	rootTok := keyToken(rootID, rootID, 0, &rootK.PublicKey)
-
-	// key database: a PSP binary signed by the root key
-	dbBody := make([]byte, 80)
-	r.Read(dbBody)
-	dbBody = append(dbBody, dbEntry(dbID, 2, &dbK.PublicKey, 0)...)
-	if variant == "dupkey" {
-		dbBody = append(dbBody, dbEntry(dbID, 2, &oemK.PublicKey, 0)...)
-	} else if r.Intn(2) == 0 {
-		dbBody = append(dbBody, dbEntry(keyID(0xE5), 0, &oemK.PublicKey, 0)...)
-	}
-	dbBin, _, _ := pspBinary(r, rootK, rootID, dbBody, false, 0)
-	if variant == "baddb" {
-		dbBin[0x100+90] ^= 4
-	}
-
-	// ABL key: signed by the root key; OEM key: signed by the database key (or the root key)
-	ablTok := keyToken(ablID, rootID, 2, &dbK.PublicKey)
-	ablTok = append(ablTok, reverseB(pssSign(rootK, ablTok))...)
-	if variant == "badabl" {
-		ablTok[70] ^= 1
-	}
-	oemUsage := uint32(8)
-	if variant == "oemusage" {
-		oemUsage = 1
-	}
-	oemTok := keyToken(oemID, dbID, oemUsage, &oemK.PublicKey)
-	oemSigner := dbK
-	if r.Intn(3) == 0 {
-		copy(oemTok[20:36], rootID)
-		oemSigner = rootK
-	}
-	oemTok = append(oemTok, reverseB(pssSign(oemSigner, oemTok))...)
-
-	vol := randBytes(r, 64+r.Intn(300))
-	sigLen := (oemK.N.BitLen() + 7) / 8
-
-	bl := &builder{}
-	bl.grow(74) // embedded firmware structure
-	gap := func() int {
-		if r.Intn(3) == 0 {
-			return 0
-		}
-		return 1 + r.Intn(24)
-	}
-	// directories first (their sizes are known), entries afterwards
-	nPsp1, nBios1 := 3, 3
-	if level == 2 {
-		nPsp1, nBios1 = 2, 1
-	}
-	if variant == "noem" {
-		if level == 2 {
-			// the level-2 BIOS directory loses the entry instead
-		} else {
-			nBios1 = 2
-		}
-	}
-	pspDir1Off := bl.put(r, make([]byte, 16+16*nPsp1), gap(), false)
-	biosDir1Off := bl.put(r, make([]byte, 16+24*nBios1), gap(), true)
-	pspDir2Off, biosDir2Off := 0, 0
-	nBios2 := 3
-	if variant == "noem" {
-		nBios2 = 2
-	}
-	if level == 2 {
-		pspDir2Off = bl.put(r, make([]byte, 16+16*2), gap(), false)
-		biosDir2Off = bl.put(r, make([]byte, 16+24*nBios2), gap(), true)
-	}
-	rootOff := bl.put(r, rootTok, gap(), true)
-	// the root key is trusted, not signed: its version, usage and reserved fields are read by
-	// nobody (neither bound nor padding)
-	for _, i := range []int{0, 1, 2, 3} {
-		bl.cov[rootOff+i] = false
-	}
-	for i := 36; i < 56; i++ {
-		bl.cov[rootOff+i] = false
-	}
-	dbOff := bl.put(r, dbBin, gap(), true)
-	ablOff := bl.put(r, ablTok, gap(), true)
-	oemOff := bl.put(r, oemTok, gap(), true)
-	// ValidateRTM appends the directories onto the volume *inside the image*, overwriting what
-	// follows the volume: in a valid layout the signature therefore lies before the volume.
-	// "adjacent" puts it right behind the volume (it is then destroyed before it is read).
-	sigOff, volOff := 0, 0
-	if variant == "adjacent" {
-		volOff = bl.put(r, vol, gap(), true)
-		sigOff = bl.put(r, make([]byte, sigLen), r.Intn(8), true)
-	} else {
-		sigOff = bl.put(r, make([]byte, sigLen), gap(), true)
-		volOff = bl.put(r, vol, gap(), true)
-	}
-	// room after the last entry so that ValidateRTM's in-place append stays inside the image
-	// (or not: then Go reallocates)
-	tail := 0
-	if r.Intn(2) == 0 {
-		tail = 200 + r.Intn(200)
-	}
-	bl.put(r, nil, tail, false)
-	img = bl.b
-	// ValidateRTM appends the directories onto the volume *inside the image*: the bytes after
-	// the volume are overwritten, so they are not padding in the oracle's sense
-	for i := volOff + len(vol); i < len(img) && i < volOff+len(vol)+16+24*3+16+24*3; i++ {
-		if bl.pad[i] {
-			bl.pad[i] = false
-		}
-	}
-
-	copy(img[0:], efs(uint32(pspDir1Off), uint32(biosDir1Off)))
-	pspKeyEntries := [][]byte{pspDirEntry(0x50, uint32(len(dbBin)), uint64(dbOff)), pspDirEntry(0x0A, uint32(len(ablTok)), uint64(ablOff))}
-	volSize := uint32(len(vol))
-	if variant == "volrange" {
-		volSize = uint32(len(img) - volOff + 1) // the volume entry reaches one byte beyond the image
-	}
-	biosEntries := [][]byte{biosDirEntry(0x62, volSize, uint64(volOff)), biosDirEntry(0x07, uint32(sigLen), uint64(sigOff))}
-	if variant != "noem" {
-		biosEntries = append(biosEntries, biosDirEntry(0x05, uint32(len(oemTok)), uint64(oemOff)))
-	}
-	if level == 1 {
-		copy(img[pspDir1Off:], dirTable(0x50535024, append([][]byte{pspDirEntry(0x00, uint32(len(rootTok)), uint64(rootOff))}, pspKeyEntries...)))
-		copy(img[biosDir1Off:], dirTable(0x44484224, biosEntries))
-	} else {
-		copy(img[pspDir1Off:], dirTable(0x50535024, [][]byte{pspDirEntry(0x00, uint32(len(rootTok)), uint64(rootOff)),
-			pspDirEntry(0x40, 0, uint64(pspDir2Off))}))
-		copy(img[pspDir2Off:], dirTable(0x324C5024, pspKeyEntries))
-		copy(img[biosDir1Off:], dirTable(0x44484224, [][]byte{biosDirEntry(0x70, 0, uint64(biosDir2Off))}))
-		copy(img[biosDir2Off:], dirTable(0x324C4224, biosEntries))
-	}
-	// the RTM signature: volume ‖ [level-1 directory] ‖ directory of the level, PSS, stored reversed
-	signed := clone(vol)
-	if level == 2 {
-		signed = append(signed, img[biosDir1Off:biosDir1Off+16+24*nBios1]...)
-		signed = append(signed, img[biosDir2Off:biosDir2Off+16+24*nBios2]...)
-	} else {
-		signed = append(signed, img[biosDir1Off:biosDir1Off+16+24*nBios1]...)
-	}
-	sig := reverseB(pssSign(oemK, signed))
-	if variant == "badrtm" {
-		sig[r.Intn(len(sig))] ^= 0x20
-	}
-	copy(img[sigOff:], sig)
-	if level == 2 {
-		// the level-1 BIOS directory is covered only through the concatenation
-	}
-	return img, bitmap(bl.cov), bitmap(bl.pad)
 }
 
 func g0(r *rand.Rand) int {
@@ -1395,25 +1054,7 @@ func genPsb(g *gen, scale int) {
 		}
 	}
 
-	// whole firmware images: key chain and RTM volume
-	variants := []string{"", "", "", "", "adjacent", "noem", "oemusage", "badrtm", "badabl", "baddb", "dupkey", "volrange"}
-	for i := 0; i < 14*scale; i++ {
-		level := 1 + r.Intn(2)
-		v := variants[r.Intn(len(variants))]
-		if i < 2 {
-			v, level = "", i+1
-		}
-		img, cov, pad := buildFirmware(r, level, keys[0], keys[1], keys[2], v)
-		kind := "firmware-valid"
-		if v != "" {
-			kind = "firmware-" + v
-		}
-		covS, padS := core.Hex(cov), core.Hex(pad)
-		if v != "" {
-			covS, padS = "", ""
-		}
-		g.add(kind, "firmware", "img", core.Hex(img), "level", itoa(level), "covered", covS, "padding", padS, "variant", v, "mseed", itoa(r.Intn(1<<30)))
-	}
+	genFirmware(g, scale, keys)
 }
 
 // tokSizes: a root-style token whose exponent field has expBytes bytes (the key database stores
